@@ -121,8 +121,7 @@ def run(ctx):
                 ctx.brk('correspondence', 'fd_weights_all disagrees bit-for-bit with Model/Fornberg.v (or in raising ValueError)', descs[s + i])
     ctx.cov['traces_validated_against_impl'] = len(cases)
     ctx.cov['correspondence_disagreements'] = nbad
-    if ctx.broken or ctx.thorough:
-        search(ctx, ctx.n(300, 2000))
+    search(ctx, ctx.n(300, 2000) if (ctx.broken or ctx.thorough) else 60)
     ctx.assumptions += ['theorems hold over any field (exact arithmetic); "up to rounding scaled by the conditioning of the node set" is explored with exact rational weights from the product formula, not proved']
     return ctx.finish(level='proof', checker_cmd='make -C coq Props/C15.vo + coqc build/cases/C15_*.v',
                       rule='node sets of size 1..40 (uniform, random, clustered, permuted, one-sided, integer), x0 on/off a node, all n < m; 1 in 12 malformed (n >= m, duplicate nodes); '
